@@ -82,8 +82,10 @@ func ofValueImpl(val func(int) value.Value) *impl {
 		return out
 	}
 	return &impl{
-		val:     val,
-		mkList:  func(e []int, spare int) value.ArrayList { return value.NewArrayListOfValueWithElements(spare, mk(e)...) },
+		val: val,
+		mkList: func(e []int, spare int) value.ArrayList {
+			return value.NewArrayListOfValueWithElements(spare, mk(e)...)
+		},
 		mkTuple: func(e []int) value.ArrayTuple { return value.NewArrayTupleOfValueWithElements(0, mk(e)...) },
 	}
 }
@@ -97,8 +99,10 @@ func nativeImpl[T value.ValueInterface](conv func(int) T) *impl {
 		return out
 	}
 	return &impl{
-		val:     func(i int) value.Value { return conv(i).ToValue() },
-		mkList:  func(e []int, spare int) value.ArrayList { return value.NewNativeArrayListWithElements[T](spare, mk(e)...) },
+		val: func(i int) value.Value { return conv(i).ToValue() },
+		mkList: func(e []int, spare int) value.ArrayList {
+			return value.NewNativeArrayListWithElements[T](spare, mk(e)...)
+		},
 		mkTuple: func(e []int) value.ArrayTuple { return value.NewNativeArrayTupleWithElements[T](0, mk(e)...) },
 	}
 }
